@@ -80,6 +80,12 @@ KSRC_BUMP = dict(crate='src_proofs', pool=False, label='K-src bump twin', harnes
 KSRC_READ = dict(crate='src_proofs', pool=False, label='K-src Source::read', harnesses=_ksrc_read, configs=[(), ('forbid_unsafe',)],
                  bounded=lambda tier: 'Source::read on exactly sized buffers of every length 0..=%d, chunk sizes 1/2/8/32, offset fully symbolic over usize (loop-free: complete in offset, bounded in length)' % (40 if tier == 'thorough' else 16))
 
+def _ksrc_boundary(tier, crate_dir=None):
+    return ['find_boundary_str', 'find_boundary_bytes_n0', 'find_boundary_bytes_n1', 'find_boundary_bytes_n5']
+
+KSRC_BOUNDARY = dict(crate='src_proofs', pool=False, label='K-src find_boundary', harnesses=_ksrc_boundary, configs=[(), ('forbid_unsafe',)],
+                     bounded='Source::find_boundary / is_boundary on a fixed 21-byte str holding 1-, 2-, 3- and 4-byte characters (every index, symbolic) and on byte buffers of length 0, 1, 5')
+
 def _bump_candidates():
     out = []
     M = (1 << 64) - 1
@@ -149,7 +155,7 @@ def klex_suite(label, kinds, defs, covers=(), configs=((),), configs_quick=None,
     return suites
 
 SPEC_KINDS = ('spec', 'specc', 'ctx', 'skel', 'skelc')
-BYTE_DEFS = ['B1', 'B2', 'B3', 'B4', 'B5', 'E1']
+BYTE_DEFS = ['B1', 'B2', 'B3', 'B4', 'B5', 'B6', 'B7', 'E1']
 SKIP_DEFS = ['S1', 'S2']
 STR_DEFS = ['U1', 'U2', 'E2']
 BOUND_NOTE = ('corpus definitions %s; inputs: fully symbolic bytes up to the listed length (spec_*), or a concrete context with '
@@ -185,7 +191,7 @@ PLAN = {
     'C02': dict(
         level='model_checking', engine='verus+kani',
         verus=[('v_src', BOTH)],
-        kani=klex_suite('K-lex error spans', SPEC_KINDS, ['E1', 'E2', 'B1', 'B2', 'U1', 'K2', 'L1'],
+        kani=[KSRC_BOUNDARY] + klex_suite('K-lex error spans', SPEC_KINDS, ['E1', 'E2', 'B1', 'B2', 'U1', 'K2', 'L1'],
                         covers=['error produced', 'error longer than one byte'],
                         bounded=BOUND_NOTE % 'E1, E2, B1, B2, U1, K2, L1'),
         technique='Verus proof that str::find_boundary returns the least char boundary >= its argument (loop invariant) and that end_to_boundary stores it; bounded model checking (Kani) of error items against the specified span rule',
@@ -211,7 +217,7 @@ PLAN = {
     'C04': dict(
         level='model_checking', engine='verus+kani',
         verus=[('v_src', BOTH)],
-        kani=klex_suite('K-lex char boundaries', SPEC_KINDS, ['U1', 'U2', 'E2', 'L2', 'I1', 'P1', 'Q1'],
+        kani=[KSRC_BOUNDARY] + klex_suite('K-lex char boundaries', SPEC_KINDS, ['U1', 'U2', 'E2', 'L2', 'I1', 'P1', 'Q1'],
                         covers=['token produced', 'error produced'],
                         configs=((), ('verif_hooks',)), configs_quick=((),),
                         bounded=BOUND_NOTE % 'U1, U2, E2, L2, I1, P1, Q1 (all valid UTF-8 inputs of the listed shapes)'),
@@ -225,8 +231,8 @@ PLAN = {
     'C05': dict(
         level='model_checking', engine='verus+kani',
         verus=[('v_src', BOTH)],
-        kani=[KSRC_READ, KSRC_STATE]
-             + klex_suite('K-lex memory safety', SPEC_KINDS, ['B5', 'B1', 'B2', 'S2', 'U1', 'E1'],
+        kani=[KSRC_READ, KSRC_STATE, KSRC_BOUNDARY]
+             + klex_suite('K-lex memory safety', SPEC_KINDS, ['B5', 'B7', 'B1', 'B2', 'S2', 'U1', 'E2', 'E1'],
                           covers=['token produced'], configs=((), ('forbid_unsafe',)),
                           bounded=BOUND_NOTE % 'B5 (lengths 0..10, crossing the 8-byte batch), B1, B2, S2, U1, E1; exactly sized stack arrays; default and forbid_unsafe builds'),
         technique='Verus proof of the Source::read contract (all lengths, offsets, chunk sizes) and of slice/remainder bounds; CBMC object-bounds checking of the real unsafe code on exactly sized buffers',
@@ -250,7 +256,7 @@ PLAN = {
     'C07': dict(
         level='model_checking', engine='verus+kani',
         verus=[('v_src', BOTH)],
-        kani=klex_suite('K-lex partial lexing', ('part',), ['Q1', 'B1', 'B2', 'E1', 'S2', 'U1'],
+        kani=klex_suite('K-lex partial lexing', ('part',), ['Q1', 'Q2', 'B1', 'B2', 'E1', 'S2', 'U1'],
                         covers=['partial lexer committed an item', 'partial lexer asked for more input'], quick_per_def=6,
                         bounded='relational: partial lexer over S[..k] vs one-shot lexer over S, every split point k of concrete contexts with a symbolic continuation byte; definitions Q1 (tests/partial.rs), B1, B2, E1, S2, U1'),
         technique='relational bounded model checking (Kani): partial lexer on every prefix vs the one-shot lexer; Verus proof that a partial None leaves a well-formed empty span',
@@ -284,7 +290,7 @@ PLAN = {
     'C12': dict(
         level='model_checking', engine='verus+kani',
         verus=[('v_src', BOTH)],
-        kani=klex_suite('K-lex str vs byte mode', ('modes',), ['U1', 'U2'],
+        kani=[KSRC_BOUNDARY] + klex_suite('K-lex str vs byte mode', ('modes',), ['U1', 'U2'],
                         covers=['modes: token', 'modes: error'], quick_per_def=8,
                         bounded='relational: U1/U2 in str mode vs utf8 = false twins over valid UTF-8 contexts with symbolic bytes'),
         technique='Verus proof that byte sources never round (find_boundary identity, is_boundary = index <= len); relational bounded model checking (Kani) of str/bytes twins',
@@ -350,7 +356,7 @@ PLAN = {
     ),
     'C20': dict(
         level='model_checking', engine='kani',
-        kani=klex_suite('K-lex read trace', SPEC_KINDS, ['B1', 'B2', 'B3', 'B5', 'E1', 'S1', 'S2', 'U1', 'K1'],
+        kani=klex_suite('K-lex read trace', SPEC_KINDS, ['B1', 'B2', 'B3', 'B5', 'B7', 'E1', 'S1', 'S2', 'U1', 'K1'],
                         covers=['C20 monitor: at least two reads traced', 'token produced'], configs=(('verif_hooks',),),
                         bounded=BOUND_NOTE % 'B1, B2, B3, B5, E1, S1, S2, U1, K1 with the ghost read-trace monitor of the verif_hooks feature'),
         technique='bounded model checking (Kani) with a ghost read-trace monitor (feature verif_hooks): offsets never decrease within an attempt, never fall below its start, reads <= 4 x bytes examined + 4',
